@@ -92,7 +92,7 @@ int main(int argc, char** argv)
     std::string params = strf("seed=%llu max_success=%llu max_size=100", (unsigned long long)seed, (unsigned long long)ctx.ncases);
     setenv("RC_PARAMS", params.c_str(), 1);
     FILE* fo = fopen(out.c_str(), "w"); if (!fo) { perror(out.c_str()); return 2; }
-    uint64_t emitted = 0, disagree = 0, trapped = 0, notce = 0;
+    uint64_t emitted = 0, disagree = 0, trapped = 0, notce = 0, nonfinite = 0;
     auto g = rc::gen::resize(100, rc::gen::container<std::vector<uint64_t>>((std::size_t)cl->nwords, rc::gen::arbitrary<uint64_t>()));
     rc::check("emit", [&]() {
       std::vector<uint64_t> w = *g; Dec d(w.data(), w.size()); Args a = c08_decode(ctx, d);
@@ -101,10 +101,15 @@ int main(int argc, char** argv)
       bool sq = !strcmp(fl, "CESQ"); bool have = false, bad = false; int64_t ref = 0;
       for (const Cut& c : ctx.cuts) { CallResult r = cut_call(c, id, a[1], a[2], a[3]); if (r.trap) { ++trapped; bad = true; break; } if (sq && !c.abacus) continue; if (!have) { have = true; ref = r.v; } else if (r.v != ref) { ++disagree; bad = true; break; } }
       if (bad || !have) return;
+      // Language rule, not a library matter: a floating-point operation whose result is not finite
+      // (x/0.0, overflow to inf, inf-inf) is never a constant expression, and NaN payloads are not
+      // pinned. Double-typed entries are therefore emitted only with finite operands and results.
+      if (!strcmp(g_sigs[id].ret, "f64") && !std::isfinite(bits_f64((uint64_t)ref))) { ++nonfinite; return; }
+      { bool skipit = false; for (size_t i = 0; i < sig.size(); ++i) { if (sig[i] == "f64" && !std::isfinite(bits_f64((uint64_t)a[1 + i]))) skipit = true; if (sig[i] == "f32" && !std::isfinite(bits_f32((uint32_t)a[1 + i]))) skipit = true; } if (skipit) { ++nonfinite; return; } }
       fprintf(fo, "%s %" PRId64 " %" PRId64 " %" PRId64 " %" PRId64 "\n", g_sigs[id].name, a[1], a[2], a[3], ref); ++emitted;
     });
     fclose(fo);
-    printf("{\"emitted\": %" PRIu64 ", \"disagree\": %" PRIu64 ", \"trapped\": %" PRIu64 ", \"runtime_only_entries\": %" PRIu64 "}\n", emitted, disagree, trapped, notce);
+    printf("{\"emitted\": %" PRIu64 ", \"disagree\": %" PRIu64 ", \"trapped\": %" PRIu64 ", \"runtime_only_entries\": %" PRIu64 ", \"non_finite_floating_skipped\": %" PRIu64 "}\n", emitted, disagree, trapped, notce, nonfinite);
     return 0;
   }
   if (cmd != "run") return 2;
